@@ -188,7 +188,7 @@ def run(ctx: Ctx) -> None:
                     break
                 one(ctx, "lattice", idx, ye, yg, ego_yaws)
         ctx.exhaustive[f"yaw_lattice_{step}deg"] = complete
-        for i in ctx.indices("random", 150 if ctx.quick else 20000):
+        for i in ctx.indices("random", 150 if ctx.quick else 60000):
             r = ctx.rng("random", i)
             ye = O.rand_yaw(r)
             k = r.random()
